@@ -131,6 +131,7 @@ class C16(Prop):
         "AwProofs.C16.merge_group_duration",
         "AwProofs.C16.merge_total_duration",
         "AwProofs.C16.merge_ok_iff",
+        "AwProofs.C16.chunk_concat_prefix",
         "AwProofs.C16.chunk_concat",
         "AwProofs.C16.chunk_uniform",
         "AwProofs.C16.chunk_duration",
@@ -239,7 +240,8 @@ class C16(Prop):
         rng = ctx.rng("c16")
         keypool = ["k1", "k2", "k3", "", "ké", "subevents2"]
         valpool = ["x", "y", "", "x", ["x"], ["x", "y"], [], 2, 3.5, -7, None, True, {"a": 1}, [["x"]], [2, 3],
-                   [2, "[x"], "a\"[b", "\\", [2, "\\\"", {"b": []}], "ü☃", 10**20, ["x", 2], [None]]
+                   [2, "[x"], "a\"[b", "\\", [2, "\\\"", {"b": []}], "ü☃", 10**20, ["x", 2], [None],
+                   [2, "a\"[b"], [2, "\\", [3]], [2, "{"], [False, "ü[", 2.5]]
         hashpool = [v for v in valpool if not unhashable(v)]
 
         def rdata(pool, pkey):
